@@ -218,6 +218,22 @@ CHECKS["C16"] = dict(
          "save_object and Dataset.save and read under another."),
    note=TB + "The repaired model abstracts CPython's set algorithms as mutual inclusion modulo ==; the literal transcription is run beside it on every case and must agree (checked, not proved).  Hash disagreement between unequal objects is judged under 'distinct key trees give distinct hashes'.  Grammar behaviour after loading is compared with a twin built in the reader, not predicted by the model.  NaN, container and user-class constant values are outside the model; grammar __hash__ (str(rules), order dependent) is outside the property.",
    design="5/C16")
+CHECKS["C13"] = dict(
+   technique="Coq proof of the TTCFG model (membership, product, clean, programs(), saturation builder) + extracted-model/implementation correspondence",
+   text=("Theorems (Props/C13.v, closed under the global context): product = intersection for all compatible tables and for built grammars end to "
+         "end (C13_product, C13_product_compatible, C13_product_of_builders); clean preserves the language for every table, start symbol and set "
+         "iteration order, hence every hash seed (C13_clean_language); size_constraint / at_most_k (build + clean) contain exactly the well-typed, "
+         "forbidden-respecting terms within the size / occurrence bound for n_gram >= 2, with no first-order or inhabitedness hypothesis "
+         "(C13_size_language, C13_at_most_k, *_rule_function, *_sound_with_shortcut); programs(), memo included, equals the number of distinct "
+         "members (C13_count, C13_count_tables, C13_count_memo_transparent); soundness of the dead-end enumeration (C13_dead_end_checker_sound); the "
+         "builders report the request they were compiled for (C13_type_request); Det.v is an instance of the generic model and the information stack "
+         "is eliminable (C13_det_instance, C13_membership_structural); seven _refuted witnesses for the defects of the tree before the fix: commits.  "
+         "Each run compares the extracted model with ttcfg.py on generated DSLs and tables: membership of every candidate, programs(), type request, "
+         "and the implementation's own serialised tables (before and after clean, product operands and result) compared by language, count and dead "
+         "ends under several hash seeds.  'After cleaning every started derivation completes' is FALSE of clean() as coded (known finding "
+         "c13_clean_dead_ends, with C13_clean_complete_refuted); termination is not claimed (explicit fuel)."),
+   note=TB + "Assumptions: ground types without sums, distinct (name, type) primitives, no Function(P, []), at_most_k exercised only on finite languages, fuel 300000 with out-of-fuel reported as an error.  Known findings: clean leaves dead ends; the builder never applies function-typed variables; n_gram < 2 cannot honour forbidden patterns.",
+   design="5/C13")
 NOT_YET = {}
 def main():
     props = [json.loads(l) for l in open(os.path.join(V, "properties.jsonl"))]
